@@ -103,7 +103,7 @@ def dyadic_constraints(inputs, bits=10, bound=2 ** 12):
 
 
 def check_obligation(col, ctx, name, goal, inputs, replay, known=None, descr=None,
-                     timeout_ms=None, groups_first=None, extra_assume=()):
+                     timeout_ms=None, groups_first=None, extra_assume=(), witness_hook=None):
     """Decide one obligation on the current path.
 
     goal      z3 Bool that must hold on this path
@@ -147,7 +147,7 @@ def check_obligation(col, ctx, name, goal, inputs, replay, known=None, descr=Non
     if r == "unknown":
         col.d["inconclusive"].append(dict(ob=name, why="solver unknown/time-out", descr=descr))
     elif r == "sat":
-        ok = _replay_model(col, ctx, name, m, inputs, replay, outside, descr, key=None)
+        ok = _replay_model(col, ctx, name, m, inputs, replay, outside, descr, key=None, witness_hook=witness_hook)
         if not ok:
             return False
     # inside each known predicate: still reproducible?
@@ -177,7 +177,7 @@ def _simplify_goal(ctx, goal):
 
 
 def check_obligations(col, ctx, goals, inputs, replay, known=None, descr=None, timeout_ms=None,
-                      groups_first=None, hyps=None):
+                      groups_first=None, hyps=None, witness_hook=None):
     """goals: dict name -> z3 Bool.  One query for the conjunction first; only if
     that is not unsat are the clauses decided one by one.  hyps: formulas already
     established on this path (proved obligations, spec definitions) that may be used."""
@@ -185,7 +185,8 @@ def check_obligations(col, ctx, goals, inputs, replay, known=None, descr=None, t
         saved = list(ctx.assumptions)
         ctx.assumptions = saved + list(hyps)
         try:
-            return check_obligations(col, ctx, goals, inputs, replay, known, descr, timeout_ms, groups_first)
+            return check_obligations(col, ctx, goals, inputs, replay, known, descr, timeout_ms, groups_first,
+                                     witness_hook=witness_hook)
         finally:
             ctx.assumptions = saved
     goals = {k: v for k, v in goals.items()}
@@ -225,7 +226,8 @@ def check_obligations(col, ctx, goals, inputs, replay, known=None, descr=None, t
             return True
     ok = True
     for name, g in goals.items():
-        ok = check_obligation(col, ctx, name, g, inputs, replay, known, descr, timeout_ms, groups_first) and ok
+        ok = check_obligation(col, ctx, name, g, inputs, replay, known, descr, timeout_ms, groups_first,
+                              witness_hook=witness_hook) and ok
     return ok
 
 
@@ -254,12 +256,22 @@ def check_lemma(col, ctx, name, hyps, goal, descr=None, timeout_ms=60000):
     return False
 
 
-def _replay_model(col, ctx, name, m, inputs, replay, query, descr, key):
+def _replay_model(col, ctx, name, m, inputs, replay, query, descr, key, witness_hook=None):
     vals = model_values(m, inputs)
     try:
         violated, detail = replay(vals)
     except Exception as e:      # noqa: BLE001
         violated, detail = False, "replay raised %s: %s" % (type(e).__name__, e)
+    if not violated and witness_hook is not None:
+        # harness-specific construction of an exactly representable witness in the same symbolic class
+        try:
+            for vals2 in witness_hook(ctx, query) or []:
+                v2, d2 = replay(vals2)
+                if v2:
+                    violated, detail, vals = True, d2 + " [constructed exact witness]", vals2
+                    break
+        except Exception as e:      # noqa: BLE001
+            detail = str(detail) + " (witness hook raised %s)" % e
     if not violated:
         # exact dyadic witness
         for bits in (6, 12):
